@@ -259,6 +259,31 @@ class AlgDomain(EventsMixin, Domain):
     d = v.d
     if isinstance(d, Tup):
       return self._tup_index(d, idx)
+    if isinstance(d, (Vec, Poly)) and node is not None and \
+            isinstance(node, ast.Subscript):
+      parts = node.slice.elts if isinstance(node.slice, ast.Tuple) \
+          else [node.slice]
+      names = [p for p in parts if isinstance(p, ast.Name)]
+      rest = [p for p in parts if not isinstance(p, ast.Name)]
+      full = all((isinstance(p, ast.Slice) and p.lower is None and
+                  p.upper is None and p.step is None) or
+                 (isinstance(p, ast.Constant) and p.value is Ellipsis)
+                 for p in rest)
+      if len(names) == 1 and full and idx and any(
+              p[0] == 'expr' and p[1].d is UNKNOWN and p[1].const() is NOCONST
+              for p in idx):
+        tag = names[0].id
+        if isinstance(d, Vec):
+          fac = {(b[0], '%s|%s' % (b[1], tag)) + tuple(b[2:]): e
+                 for b, e in d.sx.factors.items()}
+          return Vec(SExpr(d.sx.coeff, fac), d.orient)
+        if len(d.terms) == 1:
+          (m, c), = d.terms.items()
+          if len(m) == 1 and m[0][0] == 's':
+            a0 = m[0]
+            pos = parts.index(names[0])
+            return Poly({(('s', '%s|%s@%d' % (a0[1], tag, pos), a0[2], a0[3],
+                           a0[4]),): c}, d.kind)
     if isinstance(d, Vec) and d.orient == 'v':
       kinds = [p[0] for p in idx]
       full = [p[0] == 'slice' and p[1] is None and p[2] is None and
@@ -384,6 +409,8 @@ class AlgDomain(EventsMixin, Domain):
 
   def x_numpy_abs(self, args, kwargs, node, st):
     a = args[0].d if args else UNKNOWN
+    if isinstance(a, Vec):
+      return Vec(SExpr.base(('absv', a.sx.key())), a.orient)
     if isinstance(a, Lin):
       s = a.single()
       if s is not None and s[0][0] in ('dist', 'quad') and s[1] > 0:
